@@ -308,7 +308,8 @@ class C07(Engine):
                 if sc.get("generated") and sc.get("nstmts") is not None:
                     want = sc["nstmts"]
                     if want != len(pops):
-                        vs.append(Violation(self.prop, "C07.I2-statement-count", f"generated file: {want} statements emitted, {len(pops)} recognised", {}))
+                        vs.append(Violation(self.prop, "C07.I2-statement-count", "generated file: the number of recognised statements differs from the number emitted",
+                                            {"emitted": want, "recognised": len(pops)}))
 
             if sc.get("count_known") and not sc.get("generated") and o.get("outcome") == "verdict":
                 # a generated program with a violation that leaves the segmentation alone: the statement count is still known
